@@ -2,7 +2,7 @@
     Model: Model/Queue.v (queue.go + backoff.go + container/heap transcribed). A history is any list of
     timed operations (AddOrUpdate, Pop, Bump, SetIndexed with any state, MaybeRemoveMissing, Len, key set)
     on any ids, known or not; [reach bd mx h] is the state after history h from NewQueue(bd, mx). *)
-From ZV Require Import Lib.Base Model.Queue Proofs.QueueHeap Proofs.QueueMap Proofs.QueueInv Proofs.QueueOps Proofs.QueueSpec Proofs.QueueHistory Proofs.QueueKeyed.
+From ZV Require Import Lib.Base Model.Queue Proofs.QueueHeap Proofs.QueueMap Proofs.QueueInv Proofs.QueueOps Proofs.QueueSpec Proofs.QueueHistory Proofs.QueueKeyed Proofs.QueueFifo.
 
 Definition reach (bd mx : Z) (h : list (Z * op)) : queue := run (new_queue bd mx) h.
 
@@ -96,6 +96,24 @@ Theorem C30_fifo_within_class : forall bd mx h q' o,
 Proof. intros. apply (pop_fifo _ q'); [apply reachable_inv | assumption]. Qed.
 Print Assumptions C30_fifo_within_class.
 
+(** first-in first-out by TIME of enqueue: a repository entering the queue in some step gets a sequence number above
+    that of every repository already waiting, and a repository keeps its number while it stays on the queue (no event
+    of it in the stretch of history h); with C30_fifo_within_class the earlier enqueued one of the same class is
+    popped first *)
+Theorem C30_enqueue_after_all_waiting : forall bd mx h now o id id',
+  let q := reach bd mx h in let q' := fst (step q now o) in
+  ~ on_heap q id -> on_heap q' id -> on_heap q id' -> on_heap q' id' -> (seqof q' id' < seqof q' id)%Z.
+Proof. intros. apply (enqueue_after_all_waiting q now o id id'); auto. apply reachable_inv. Qed.
+Print Assumptions C30_enqueue_after_all_waiting.
+
+Theorem C30_enqueue_order_is_seq_order : forall bd mx h0 now o h id1 id2,
+  let q := reach bd mx h0 in let q1 := fst (step q now o) in
+  on_heap q id1 -> on_heap q1 id1 -> ~ on_heap q id2 -> on_heap q1 id2 ->
+  events id1 q1 h = [] -> events id2 q1 h = [] ->
+  on_heap (run q1 h) id1 /\ on_heap (run q1 h) id2 /\ (seqof (run q1 h) id1 < seqof (run q1 h) id2)%Z.
+Proof. intros. apply (enqueue_order_is_seq_order q now o h id1 id2); auto. apply reachable_inv. Qed.
+Print Assumptions C30_enqueue_order_is_seq_order.
+
 (** backoff honoured: while now <= backoffUntil neither AddOrUpdate nor Bump puts the repository on the queue;
     a failed SetIndexed takes it off the queue and sets backoffUntil = now + min((failures+1)*backoff, max) *)
 Theorem C30_backoff_honoured_add : forall bd mx h now o x,
@@ -174,4 +192,11 @@ Definition ex_h2 : list (Z * op) :=
 Example ex_events : events 2%N (new_queue 0 0) ex_h2 = [EEnq; ECancel; EEnq; EPop; EEnq] /\
   events 3%N (new_queue 0 0) ex_h2 = [EEnq; EPop; EEnq; ECancel] /\
   popped (new_queue 0 0) ex_h2 = [3; 2]%N /\ onb (reach 0 0 ex_h2) 2 = true /\ onb (reach 0 0 ex_h2) 3 = false.
+Proof. vm_compute. repeat split; reflexivity. Qed.
+
+(* 3 waits, 5 is enqueued later, unrelated operations follow: 3 keeps the smaller sequence number *)
+Example ex_enqueue_order :
+  let q := reach 0 0 [(1, OAdd 3 1)]%Z in let q1 := fst (step q 2%Z (OAdd 5 1)) in
+  let h := [(3, OAdd 7 1); (4, OSetIndexed 7 1 1); (5, OBump [3; 5]%N)]%Z in
+  events 3%N q1 h = [] /\ events 5%N q1 h = [] /\ (seqof (run q1 h) 3 < seqof (run q1 h) 5)%Z.
 Proof. vm_compute. repeat split; reflexivity. Qed.
